@@ -44,9 +44,9 @@ pub fn collect(prop: &str, blocks: &mut Vec<Block>, setup: &mut Report) {
         "list" => {}
         _ => setup.machinery.push(format!("unknown property {prop}")),
     }
-    // histories of depth 2 (props/history.rs); C17 adds its own from its collect(); C18's operations are the same
-    // calls as those of C01-C05, C13 and C15 (a panic after some history shows there as a changed observation)
-    const WITH_HISTORY: [&str; 13] = ["C01", "C02", "C03", "C04", "C05", "C07", "C08", "C09", "C10", "C13", "C14", "C15", "C16"];
+    // histories of depth 2 (props/history.rs); C17 adds its own from its collect(); C18's victims are the derived and
+    // rate operations (a panic of the other operations after some history shows in C01-C03 / C15 as a changed observation)
+    const WITH_HISTORY: [&str; 14] = ["C01", "C02", "C03", "C04", "C05", "C07", "C08", "C09", "C10", "C13", "C14", "C15", "C16", "C18"];
     if let Some(p) = WITH_HISTORY.iter().find(|p| **p == prop) {
         history::collect_for(p, blocks, setup);
     }
